@@ -10,6 +10,7 @@ import X86Model.Spec.GdtTable
 import X86Model.Proofs.GdtDefs
 import X86Model.Properties.C15
 import Std.Tactic.BVDecide
+import X86Model.Spec.AsmOptions
 
 namespace X86.C14
 open X86 X86.Spec X86.GdtProof
@@ -371,6 +372,22 @@ example : rawOk 3 [0#64, 5#64] = true ∧ rawOk 3 [1#64] = false ∧ rawOk 1 [0#
   decide
 example : Gdt.fromRawEntries 3 [0#64, 5#64] = .ok ⟨3, [0#64, 5#64, 0#64], 2⟩ := by decide
 example : (⟨3, [0#64, 5#64, 0#64], 2⟩ : Gdt).limit ⟨true⟩ = .ok 15#16 := by decide
+
+/-! ### The `asm!` blocks behind this property (re-extracted from the source on every run)
+
+`Generated.asmSites` is rewritten by `translator/gen_asm.py` from the `asm!` invocations of the
+crate; the theorems below are re-checked by the kernel against what the source says now. They
+constrain what the compiler may do with the blocks (delete, merge, hoist, reorder memory accesses
+across them) — behaviour that only shows in particular build profiles. -/
+
+/-- Every `asm!` block of the files this property is anchored in carries only options its
+instructions admit (`Spec/AsmOptions.lean`): no `pure` on instructions with side effects, no
+`nomem`/`readonly` where the hardware dereferences the operand, no `nostack` on pushes/pops. -/
+theorem asm_options_admissible :
+    ∀ s ∈ Spec.AsmOptions.sitesOfFiles ["src/instructions/tables.rs"], Spec.AsmOptions.admissible s = true := by
+  decide +kernel
+
+example : (Spec.AsmOptions.sitesOfFiles ["src/instructions/tables.rs"]).length > 0 := by decide +kernel
 
 end X86.C14
 
